@@ -73,13 +73,14 @@ def initial_missing():
         st.desc['resources'][1]['schema']['missingValues'] = ['', 'NA']
         st.rows[1][0]['k'] = 'NA'
         st.rows[1][3]['n2'] = 'NA'
+        st.rows[1][1]['i'] = 'NA'           # a column both resources have
         _INIT3 = core.State(st.desc, st.rows)
     return _INIT3
 
 
 INITS = {'std': initial, 'renamed': initial_renamed, 'missing': initial_missing}
 # steps that carry rows of the second resource into another (or the same) resource
-SIGMA_MISSING = ['concat_k', 'concat_mapped', 'concat_first_two', 'validate', 'sort_rows', 'delete_resource_first', 'dump_to_path',
+SIGMA_MISSING = ['concat_k', 'concat_i_s', 'concat_mapped', 'concat_first_two', 'validate', 'sort_rows', 'delete_resource_first', 'dump_to_path',
                  'deduplicate', 'update_package']
 # steps that do not address a resource by name (usable on the renamed input)
 SIGMA_NAMELESS = ['iterable', 'acf_const', 'add_field_int', 'validate', 'sort_rows', 'update_package',
@@ -129,6 +130,9 @@ def _b_iter(step, env):
 
 SYMS = {
     'acf_sum': S('add_computed_field', [{'target': 'c_sum', 'operation': 'sum', 'source': ['i', 'n']}], resources='res_1'),
+    # one step over both resources, whose operands have different types (integer in the first, number in the second)
+    'acf_sum_all': S('add_computed_field', [{'target': 'c_all', 'operation': 'sum', 'source': ['i', 'm']}], resources=None),
+    'acf_max_all': S('add_computed_field', [{'target': 'c_allmax', 'operation': 'max', 'source': ['m', 'i']}], resources=None),
     'acf_sum_int': S('add_computed_field', [{'target': 'c_sumi', 'operation': 'sum', 'source': ['i', 'm']}], resources='res_1'),
     'acf_avg': S('add_computed_field', [{'target': 'c_avg', 'operation': 'avg', 'source': ['m', 'm']}], resources='res_1'),
     'acf_max': S('add_computed_field', [{'target': 'c_max', 'operation': 'max', 'source': ['m', 'n']}], resources='res_1'),
